@@ -286,6 +286,21 @@ def check_plan(it, old, new, res, sym, survivors, stats):
                     unamb.append(z3.BoolVal(False))
                 elif mc is not False:
                     unamb.append(z3.Not(mc))
+        if any(len(po) > 1 for (po, _) in survivors):
+            # survivors inside an edited voice: which new leaf continues which old leaf is only determined when no other leaf of an
+            # edited / inserted / deleted voice has the same kind and size (equal ones may exchange their state): assume distinct sizes
+            kept_old_top = set(po[0] for (po, _) in survivors if len(po) == 1)
+            kept_new_top = set(pn[0] for (_, pn) in survivors if len(pn) == 1)
+            ol = [(lf, i) for i, c in enumerate(old[1]) if i not in kept_old_top for lf in leaves(c)]
+            nl = [(lf, i) for i, c in enumerate(new[1]) if i not in kept_new_top for lf in leaves(c)]
+            for (a, _) in ol:
+                for (b, _) in nl:
+                    if a[0] == b[0] and a[1] != b[1]:
+                        unamb.append(sym.size(a[1]) != sym.size(b[1]))
+            for group in (ol, nl):
+                for (a, _), (b, _) in itertools.combinations(group, 2):
+                    if a[0] == b[0] and a[1] != b[1]:
+                        unamb.append(sym.size(a[1]) != sym.size(b[1]))
         unamb = z3.And(*unamb) if unamb else z3.BoolVal(True)
         for (po, pn) in survivors:
             stats['obligations'] += 1
@@ -362,6 +377,13 @@ def concrete_clause_check(old, new, sizes, real, survivors):
     if survivors is not None:
         kept_new = set(tuple(pn) for (_, pn) in survivors)
         amb = any(match_cond(nc, oc, sym) is True for i, nc in enumerate(new[1]) if (i,) not in kept_new for oc in old[1])
+        if not amb and any(len(po) > 1 for (po, _) in survivors):
+            kept_old_top = set(tuple(po)[0] for (po, _) in survivors if len(po) == 1)
+            kept_new_top = set(tuple(pn)[0] for (_, pn) in survivors if len(pn) == 1)
+            ol = [lf for i, c in enumerate(old[1]) if i not in kept_old_top for lf in leaves(c)]
+            nl = [lf for i, c in enumerate(new[1]) if i not in kept_new_top for lf in leaves(c)]
+            pairs_ = [(a, b) for a in ol for b in nl] + list(itertools.combinations(ol, 2)) + list(itertools.combinations(nl, 2))
+            amb = any(a[0] == b[0] and a[1] != b[1] and sizes[a[1]] == sizes[b[1]] for (a, b) in pairs_)
         for (po, pn) in ([] if amb else survivors):
             a_n, z_n = ln[tuple(pn)]
             cov = sum(z for (s, d, z) in ps if d >= a_n and d + z <= a_n + z_n)
@@ -411,6 +433,15 @@ def edit_pairs(rng, n, max_voices=3):
         (['mfd', 'mfm'], [('keep', 1)]),
         (['mem', 'lp', 'mem'], [('keep', 0), ('ins', 'nest'), ('keep', 1), ('keep', 2)]),
     ]
+    # ('tweak', i, how): voice i is kept but edited INSIDE (a leaf inserted at / deleted from position p): its untouched
+    # leaves are surviving subtrees one level down; combined with insertions / deletions in front of other kept voices
+    fixed += [
+        (['lp', 'mfd'], [('ins', 'mem'), ('keep', 0), ('tweak', 1, ('ins', 1, 'M'))]),     # shift an anchor, edit a later voice inside
+        (['lp', 'mfd'], [('keep', 0), ('tweak', 1, ('del', 1))]),
+        (['osc', 'lp', 'echo'], [('keep', 1), ('tweak', 2, ('ins', 0, 'E'))]),                # delete in front of an anchor, edit a later voice
+        (['mfm', 'lp'], [('tweak', 0, ('ins', 3, 'D')), ('ins', 'osc'), ('keep', 1)]),
+        (['lp', 'echo', 'mfd'], [('ins', 'dly'), ('keep', 0), ('keep', 1), ('tweak', 2, ('del', 0))]),
+    ]
     scripts = list(fixed)
     while len(scripts) < n:
         m = rng.randint(1, max_voices)
@@ -419,21 +450,45 @@ def edit_pairs(rng, n, max_voices=3):
         for i in range(m):
             if rng.random() < 0.3:
                 script.append(('ins', rng.choice(kinds)))
-            if rng.random() < 0.75:
+            x = rng.random()
+            if x < 0.55:
                 script.append(('keep', i))
+            elif x < 0.8 and olds[i] in ('lp', 'echo', 'mfd', 'mfm'):
+                nleaves = {'lp': 2, 'echo': 2, 'mfd': 3, 'mfm': 3}[olds[i]]
+                if rng.random() < 0.5:
+                    script.append(('tweak', i, ('ins', rng.randint(0, nleaves), rng.choice('MED'))))
+                else:
+                    script.append(('tweak', i, ('del', rng.randint(0, nleaves - 1))))
         if rng.random() < 0.3:
             script.append(('ins', rng.choice(kinds)))
-        if not any(s[0] == 'keep' for s in script):
+        if not any(s[0] in ('keep', 'tweak') for s in script):
             script.append(('keep', 0))
         scripts.append((olds, script))
-    for olds, script in scripts[:n]:
+    for sc in scripts[:n]:
+        olds, script = sc[0], sc[1]
         ctr = [0]
         ov = [voice(k, 'o', ctr) for k in olds]
         nv, surv = [], []
-        for op, arg in script:
+        for step in script:
+            op, arg = step[0], step[1]
             if op == 'keep':
                 surv.append(((arg,), (len(nv),)))
                 nv.append(ov[arg])          # same size variables: the subtree survives unchanged
+            elif op == 'tweak':
+                how = step[2]
+                kids = list(ov[arg][1])
+                idx = list(range(len(kids)))          # old child index of each new child (None = inserted)
+                if how[0] == 'ins':
+                    ctr[0] += 1
+                    kids.insert(how[1], (how[2], 'n%d' % ctr[0]))
+                    idx.insert(how[1], None)
+                else:
+                    del kids[how[1]]
+                    del idx[how[1]]
+                for newj, oldj in enumerate(idx):
+                    if oldj is not None:
+                        surv.append(((arg, oldj), (len(nv), newj)))
+                nv.append(('F', kids))
             else:
                 nv.append(voice(arg, 'n', ctr))
         out.append((('F', ov), ('F', nv), surv))
